@@ -84,11 +84,17 @@ def replay(rec: Dict[str, Any]) -> List[Tuple[str, Dict[str, Any], str]]:
     doc_bytes = DOCS[dcls]
     if cmd == "path":
         expr_text: Any = PATH[ecls]
+        if ecls == "name":
+            # an unknown function: a name that looks like nothing known, or like a known one misspelt
+            expr_text = ["$[?nosuch(@.a)]", "$[?lenght(@.a) > 1]", "$[?mach(@.s, 'a')]", "$[?cuont(@.*) == 1]"][(sum(1 for v in o.values() if v) + len(dcls)) % 4]
         if ecls == "syntax":
             # one of several malformed texts, chosen by the option combination
             expr_text = SYNTAX_SAMPLES[(sum(1 for v in o.values() if v) + len(dcls)) % len(SYNTAX_SAMPLES)]
     elif cmd == "pointer":
         expr_text = POINTER[docshape][ecls]
+        if ecls == "no-leading-slash":
+            # (the URI fragment form of RFC 6901 section 6 is not something the library reads: it begins with '#')
+            expr_text = [expr_text, "#/a/0", "#", "#" + POINTER[docshape]["ok"]][(sum(1 for v in o.values() if v) + len(dcls)) % 4]
     else:
         expr_text = PATCH[docshape].get(ecls)
     argv = ["json"]
